@@ -85,6 +85,13 @@ SharedScripts ==
                                          ReadCall("b", rb, raws[j], TRUE, TRUE, FALSE), ReadReact(rb, 3 * j - 1, raws[j], TRUE, TRUE, FALSE),
                                          ReadCall("c", rc, raws[j], TRUE, TRUE, FALSE), ReadReact(rc, 3 * j, raws[j], TRUE, TRUE, FALSE) >>]), "shared")
     : k \in 1..3, la \in {0, 7, 9}, fa \in {0, 2}, lb \in {0, 1}, fb \in {1} }
+\* the same readers from records whose reserved bits are set (among them bit 7 of the linearisation byte)
+ReservedScripts ==
+  { LET r == [Rec(lin, fmt, 5, -20, 0, -1, lin % 4, 70 + lin) EXCEPT !.res = rs]
+        raws == << 0, 128, 255, 66 >> IN
+    Script("reserved-" \o ToString(lin) \o "-" \o ToString(fmt) \o "-" \o ToString(rs.lin) \o ToString(rs.tl),
+           << NewReader("v", r, TRUE) >> \o Flatten([j \in 1..4 |-> << ReadCall("v", r, raws[j], TRUE, TRUE, FALSE), ReadReact(r, j, raws[j], TRUE, TRUE, FALSE) >>]), "reserved")
+    : lin \in 0..11, fmt \in {0, 2}, rs \in {AllRes, [NoRes EXCEPT !.lin = 1]} }
 \* C10 for a command addressed to a non-zero LUN: the responder answers from that LUN, first with node busy / timeout,
 \* then with the reading; the library must re-send the same request and return the first final answer
 BusyReact(r, j, cc) ==
@@ -98,7 +105,7 @@ LunScripts ==
            << NewReader("l", r, TRUE), call(1), ReadReact(r, 1, 77, TRUE, TRUE, FALSE),
               call(2), BusyReact(r, 2, 192), ReadReact(r, 3, 77, TRUE, TRUE, FALSE),
               call(3), BusyReact(r, 4, 195), BusyReact(r, 5, 192), ReadReact(r, 6, 77, TRUE, TRUE, FALSE) >>, "lun") : lun \in 0..3 }
-Scripts == CASE Family = "sweep" -> Sweeps [] Family = "misc" -> RefusalScripts \cup FlagScripts \cup Factors \cup ZeroScripts \cup SharedScripts [] Family = "lun" -> LunScripts
+Scripts == CASE Family = "sweep" -> Sweeps [] Family = "misc" -> RefusalScripts \cup FlagScripts \cup Factors \cup ZeroScripts \cup SharedScripts \cup ReservedScripts [] Family = "lun" -> LunScripts
 Header == [header |-> TRUE, family |-> "sensor", defs |-> SessionDefs(S), stable |-> <<"SIK", "kB", "kR">>,
            session |-> SessionRecipes(S), prefixes |-> [hs |-> HandshakeSteps(S)]]
 ASSUME PrintT(<<"HEADER", ToJson(Header)>>)
